@@ -44,6 +44,18 @@ extern "C" gcry_error_t gcry_cipher_authenticate(gcry_cipher_hd_t hd, const void
 	if (g_capad) g_ads.push_back(std::string((const char*)abuf, abuflen));
 	return real(hd, abuf, abuflen);
 }
+// observe the signature value given to the verification primitive
+static bool g_capsig = false; static std::string g_sig_r, g_sig_s; static bool g_sig_seen = false;
+extern "C" gcry_error_t gcry_pk_verify(gcry_sexp_t sigval, gcry_sexp_t data, gcry_sexp_t pkey) {
+	typedef gcry_error_t (*fn_t)(gcry_sexp_t, gcry_sexp_t, gcry_sexp_t);
+	static fn_t real = (fn_t)dlsym(RTLD_NEXT, "gcry_pk_verify");
+	if (g_capsig) {
+		g_sig_seen = true; g_sig_r.clear(); g_sig_s.clear();
+		for (int k = 0; k < 2; k++) { gcry_sexp_t t = gcry_sexp_find_token(sigval, k ? "s" : "r", 0); if (!t) continue; size_t n = 0; const char *b = gcry_sexp_nth_data(t, 1, &n);
+			if (b) (k ? g_sig_s : g_sig_r).assign(b, n); gcry_sexp_release(t); }
+	}
+	return real(sigval, data, pkey);
+}
 static std::string S(const oct &o) { return std::string(o.begin(), o.end()); }
 static oct rnd_oct(size_t n) { oct r(n); for (size_t i = 0; i < n; i++) r[i] = (unsigned char)gen().next(); return r; }
 static uint64_t g_cases = 0, g_benign = 0;
@@ -308,6 +320,41 @@ static void verify_hash_records() {
 		delete sig; g_cases++;
 	}
 	gcry_sexp_release(key); gcry_mpi_release(p); gcry_mpi_release(q); gcry_mpi_release(g); gcry_mpi_release(y); gcry_mpi_release(r); gcry_mpi_release(s2);
+}
+
+
+// EdDSA signature values as handed to the primitive, for generated R and S of every length (deterministic)
+static void eddsa_sigval_records(const Key &ed) {
+	for (int k = 0; k < (T ? 1500 : 400); k++) {
+		auto val = [&](unsigned sel) { size_t n; switch (sel) { case 0: n = 32; break; case 1: n = 31; break; case 2: n = 30; break; case 3: n = 33; break; case 4: n = 1 + gen().below(29); break; default: n = 32; }
+			oct b = rnd_oct(n); if (b[0] == 0) b[0] = 1; if (sel == 5) b[0] |= 0x80; if (sel == 6) b[0] &= 0x7F, b[0] |= 1; if (gen().below(40) == 0) b.assign(1, 0); return b; };
+		oct rb = val(gen().below(7)), sb = val(gen().below(7)), hash = rnd_oct(32);
+		gcry_mpi_t r = NULL, s = NULL; gcry_mpi_scan(&r, GCRYMPI_FMT_USG, rb.data(), rb.size(), NULL); gcry_mpi_scan(&s, GCRYMPI_FMT_USG, sb.data(), sb.size(), NULL);
+		g_capsig = true; g_sig_seen = false; PGP::AsymmetricVerifyEdDSA(hash, ed.key, r, s); g_capsig = false;
+		char *rh = NULL, *sh = NULL; { unsigned char *b = NULL; size_t n; gcry_mpi_aprint(GCRYMPI_FMT_HEX, &b, &n, r); rh = (char*)b; gcry_mpi_aprint(GCRYMPI_FMT_HEX, &b, &n, s); sh = (char*)b; }
+		auto low = [](std::string x) { size_t i = 0; while (i + 1 < x.size() && x[i] == '0') i++; x = x.substr(i); for (auto &c : x) c = tolower(c); return x; };
+		Rec("eddsa_sigval").t(low(rh)).t(low(sh)).t(g_sig_seen ? xb(g_sig_r) + ":" + xb(g_sig_s) : std::string("none"));
+		gcry_free(rh); gcry_free(sh); gcry_mpi_release(r); gcry_mpi_release(s); g_cases++;
+	}
+}
+// many honest signatures per algorithm through the whole path (prepare, hash, sign, encode, parse, verify); among them
+// those whose r / s (RSA: signature value) lost one or more leading zero octets in the MPI encoding
+static void many_signatures(const Key &k, size_t count) {
+	size_t full = 0; time_t now = time(NULL); size_t short_r = 0, short_s = 0, short_both = 0;
+	for (size_t i = 0; i < count; i++) {
+		oct data = rnd_oct(1 + gen().below(40)); Signed sg; int type = i & 1, ha = HASHES[i % 3];
+		if (type) for (auto &c : data) if (c == '\r') c = 'x';
+		if (!make_doc_sig(k, ha, type, data, now - 5, 0, sg)) { propfail("sign-fails-" + k.name, "cannot create signature number " + std::to_string(i)); continue; }
+		size_t rl = (gcry_mpi_get_nbits(sg.r) + 7) / 8, sl = (gcry_mpi_get_nbits(sg.s) + 7) / 8;
+		if (rl > full) full = rl; if (sl > full) full = sl;
+		TMCG_OpenPGP_Signature *sig = NULL;
+		bool ok = PGP::SignatureParse(sg.pkt, 0, sig) && sig && sig->VerifyData(k.key, data, 0);
+		if (!ok) propfail("sig-honest-rejected-" + k.name, "honest signature does not verify (r has " + std::to_string(rl) + " octets, s has " + std::to_string(sl) + " octets) pkt=" + xb(S(sg.pkt)) + " data=" + xb(S(data)));
+		if (k.pkalgo != TMCG_OPENPGP_PKALGO_RSA) { if (rl < full && sl >= full) short_r++; if (sl < full && rl >= full) short_s++; if (rl < full && sl < full) short_both++; }
+		else if (sl < full) short_s++;
+		if (sig) delete sig; gcry_mpi_release(sg.r); gcry_mpi_release(sg.s); g_cases++;
+	}
+	printf("SHORTMPI %s r=%zu s=%zu both=%zu of %zu\n", k.name.c_str(), short_r, short_s, short_both, count);
 }
 
 // CheckValidity verdicts for the model: packets with arbitrary MPIs (no signing needed)
@@ -784,16 +831,16 @@ int main(int argc, char **argv) {
 	if (on("hash")) { hash_records(); verify_hash_records(); }
 	if (on("validity")) validity_records();
 	if (on("sig-rsa")) { Key k; k.name = "rsa"; k.pkalgo = TMCG_OPENPGP_PKALGO_RSA; k.params = "ne"; k.pubfmt = "(public-key (rsa (n %M) (e %M)))";
-		if (!genkey(k, "(genkey (rsa (nbits 4:2048)(transient-key)))")) propfail("keygen", "cannot generate RSA key"); else { sig_suite(k); keyblock_suite(k, k); } }
+		if (!genkey(k, "(genkey (rsa (nbits 4:2048)(transient-key)))")) propfail("keygen", "cannot generate RSA key"); else { sig_suite(k); keyblock_suite(k, k); many_signatures(k, T ? 1500 : 500); } }
 	if (on("sig-dsa")) { Key k; k.name = "dsa"; k.pkalgo = TMCG_OPENPGP_PKALGO_DSA; k.params = "pqgy"; k.pubfmt = "(public-key (dsa (p %M) (q %M) (g %M) (y %M)))";
-		if (!genkey(k, "(genkey (dsa (nbits 4:2048)(transient-key)))")) propfail("keygen", "cannot generate DSA key"); else { sig_suite(k); Key sr; if (genkey(sr, "(genkey (rsa (nbits 4:2048)(transient-key)))")) keyblock_suite(k, sr); else propfail("keygen", "cannot generate RSA subkey"); } }
+		if (!genkey(k, "(genkey (dsa (nbits 4:2048)(transient-key)))")) propfail("keygen", "cannot generate DSA key"); else { sig_suite(k); many_signatures(k, T ? 2000 : 600); Key sr; if (genkey(sr, "(genkey (rsa (nbits 4:2048)(transient-key)))")) keyblock_suite(k, sr); else propfail("keygen", "cannot generate RSA subkey"); } }
 	if (on("sig-ecdsa")) { Key k; k.name = "ecdsa"; k.pkalgo = TMCG_OPENPGP_PKALGO_ECDSA; k.params = "q"; k.pubfmt = "(public-key (ecc (curve \"NIST P-256\") (q %M)))";
-		if (!genkey(k, "(genkey (ecdsa (curve secp256r1)))")) propfail("keygen", "cannot generate ECDSA key"); else { sig_suite(k); Key sr; if (genkey(sr, "(genkey (rsa (nbits 4:2048)(transient-key)))")) keyblock_suite(k, sr); else propfail("keygen", "cannot generate RSA subkey"); } }
+		if (!genkey(k, "(genkey (ecdsa (curve secp256r1)))")) propfail("keygen", "cannot generate ECDSA key"); else { sig_suite(k); many_signatures(k, T ? 8000 : 2500); Key sr; if (genkey(sr, "(genkey (rsa (nbits 4:2048)(transient-key)))")) keyblock_suite(k, sr); else propfail("keygen", "cannot generate RSA subkey"); } }
 	if (on("sig-eddsa")) { Key k; k.name = "eddsa"; k.pkalgo = TMCG_OPENPGP_PKALGO_EDDSA; k.params = "q"; k.pubfmt = "(public-key (ecc (curve Ed25519) (flags eddsa) (q %M)))";
-		if (!genkey(k, "(genkey (ecc (curve Ed25519) (flags eddsa)))")) propfail("keygen", "cannot generate EdDSA key"); else { sig_suite(k); Key sr; if (genkey(sr, "(genkey (rsa (nbits 4:2048)(transient-key)))")) keyblock_suite(k, sr); else propfail("keygen", "cannot generate RSA subkey"); } }
+		if (!genkey(k, "(genkey (ecc (curve Ed25519) (flags eddsa)))")) propfail("keygen", "cannot generate EdDSA key"); else { sig_suite(k); many_signatures(k, T ? 20000 : 4000); Key sr; if (genkey(sr, "(genkey (rsa (nbits 4:2048)(transient-key)))")) keyblock_suite(k, sr); else propfail("keygen", "cannot generate RSA subkey"); } }
 	if (on("enc-mdc")) enc_mdc_suite();
 	if (on("enc-aead")) enc_aead_suite();
-	if (on("sigfields")) sigfields_suite();
+	if (on("sigfields")) { sigfields_suite(); Key k; k.name = "eddsa"; k.pkalgo = TMCG_OPENPGP_PKALGO_EDDSA; if (genkey(k, "(genkey (ecc (curve Ed25519) (flags eddsa)))")) eddsa_sigval_records(k); }
 	if (on("aead-nonce")) { aead_nonce_suite(); aead_chunk_tamper_suite(); }
 	if (on("pke")) { Key rsa, elg, ec; bool a = genkey(rsa, "(genkey (rsa (nbits 4:2048)(transient-key)))"), b = genkey(elg, "(genkey (elg (nbits 4:2048)(transient-key)))"), c = genkey(ec, "(genkey (ecc (curve secp256r1)))");
 		if (!a || !b) propfail("keygen", "cannot generate encryption keys"); else pke_suite(rsa, elg, c ? &ec : NULL); }
